@@ -68,7 +68,8 @@ def rule_soundness(ctx: Ctx, cls: str, ops: List[str], rule: str = "sound") -> N
         for sc in _scenarios(cls, op):
             paths = run_binary(prog, sc)
             npaths += len(paths)
-            fkey = "%s.%s" % (cls, sc.method)
+            _m = prog.resolve_method(cls, sc.method)
+            fkey = _m.key if _m is not None else "%s.%s" % (cls, sc.method)
             for p in paths:
                 if p.unknowns:
                     # an expression the interpreter could not read flowed somewhere; only matters if it is a result field
@@ -134,7 +135,8 @@ def rule_interfaces(ctx: Ctx, cls: str, ops: List[str], rule: str = "iface") -> 
         seen_guard: Set[str] = set()
         for sc in _scenarios(cls, op):
             paths = run_binary(prog, sc)
-            fkey = "%s.%s" % (cls, sc.method)
+            _m = prog.resolve_method(cls, sc.method)
+            fkey = _m.key if _m is not None else "%s.%s" % (cls, sc.method)
             checks = interface_checks(op, paths, exc.is_sub)
             for c in checks:
                 if c["kind"] == "iface":
